@@ -175,7 +175,7 @@ def token_alphabet():
     for n in names:
         al.append("<%s>" % n)
         al.append("</%s>" % n)
-    al += ["a", " ", "\n", "\x00", "<!--c-->", "<!DOCTYPE html>", "<input type=hidden>", "<font color=red>", "<font size=1>", "<font face=f>", "<font>", "<font id=i>", "<br/>", "<svg/>", "<p a=1>", "<body a=1>", "<html a=1>",
+    al += ["a", " ", "\n", "\x00", "<!--c-->", "<!DOCTYPE html>", "<input type=hidden>", "<font color=red>", "<font size=1>", "<font face=f>", "<font>", "<font id=i>", "&nbsp;", "&#x2003;", "&#11;", "\xa0", "<br/>", "<svg/>", "<p a=1>", "<body a=1>", "<html a=1>",
            "<a href=x>", "<annotation-xml encoding=text/html>", "&amp;", " a ", "<![CDATA[x]]>"]
     return al
 
@@ -189,7 +189,7 @@ def core_alphabet():
     for n in CORE_NAMES:
         al.append("<%s>" % n)
         al.append("</%s>" % n)
-    al += ["a", " ", "\x00", "<!--c-->", "<!DOCTYPE html>", "<input type=hidden>", "<font color=red>", "<font size=1>", "<font face=f>", "<p a=1>", "&amp;"]
+    al += ["a", " ", "\x00", "<!--c-->", "<!DOCTYPE html>", "<input type=hidden>", "<font color=red>", "<font size=1>", "<font face=f>", "<p a=1>", "&amp;", "&nbsp;", "&#11;"]
     return al
 
 
